@@ -7,8 +7,10 @@
 //! schedule tokens: `+open|+change|+save|+wait` (start the next handler = first poll), `w` (let the
 //! worker pass its next point), `h<k>` (let handler k pass its next point). Handler switches happen
 //! only where the real server can switch (handler future returned Pending or finished), the worker
-//! interleaves everywhere. Marker points (`w_recv_wait`, `w_recv`, `w_compile`, `p_enter`, `p_await`)
-//! are let through automatically. After the tokens are used up everything is run to quiescence.
+//! interleaves everywhere. Marker points (`w_recv`, `w_compile`, `p_enter`) are let through
+//! automatically. `w_recv_wait` (worker entering `recv`) and `p_await` (first poll of the `Notified`)
+//! are scheduled like accesses: the dequeue itself cannot be held, only delayed by keeping the worker
+//! out of `recv`; a notification can be placed between the creation of a `Notified` and its first poll. After the tokens are used up everything is run to quiescence.
 use lsp_types::*;
 use std::future::Future;
 use std::io::Write;
@@ -23,9 +25,10 @@ use sway_lsp::server_state::ServerState;
 use sway_lsp::verif_sched as vs;
 use tower_lsp::LanguageServer;
 
-const MARKERS: &[&str] = &["w_recv_wait", "w_recv", "w_compile", "p_enter", "p_await"];
+const MARKERS: &[&str] = &["w_recv", "w_compile", "p_enter"];
 const ST_PENDING: u32 = 1;
 const ST_DONE: u32 = 2;
+fn dbg(msg: impl FnOnce() -> String) { if std::env::var_os("SV_C24_DEBUG").is_some() { eprintln!("[c24] {}", msg()); } }
 
 #[derive(Clone, Copy, PartialEq, Debug)]
 enum Kind { Open, Change, Save, Wait }
@@ -108,6 +111,7 @@ impl Run {
     /// Wait until no thread is running between two points, letting marker points through.
     fn settle(&mut self) {
         loop {
+            dbg(|| format!("settle: {:?}", vs::with(|i| (i.waiting.clone(), i.last_point.clone(), i.user.clone()))));
             let n = self.kinds.len() as u32;
             let ok = vs::wait_until(Duration::from_secs(120), |i| {
                 self.worker_settled(i) && (1..=n).all(|k| self.handler_settled(i, k))
@@ -130,23 +134,19 @@ impl Run {
             let marker: Option<(vs::Tid, &'static str)> = vs::with(|i| i.waiting.iter().map(|(t, n)| (*t, *n))
                 .find(|(t, name)| (*t == 0 || (*t > base && *t <= base + n)) && MARKERS.contains(name)));
             match marker {
-                Some((t, name)) => {
-                    self.grant_raw(t);
-                    if name == "w_recv_wait" {
-                        // if a request is already queued the worker shows up at `w_recv` at once
-                        vs::wait_until(Duration::from_millis(100), |i| i.waiting.contains_key(&0));
-                    }
-                }
+                Some((t, _)) => self.grant_raw(t),
                 None => return,
             }
         }
     }
     fn grant_raw(&self, t: vs::Tid) {
+        dbg(|| format!("grant {} at {:?}", t, self.at_point(t)));
         vs::with(|i| { if t != 0 { i.user.insert(t, 0); } });
-        // the thread is removed from `waiting` only when it wakes up; wait for that so that
-        // `settled` does not see the stale entry
+        // wait until the thread has actually passed the point (it logs the point then), so that
+        // `settle` does not take the stale `waiting` entry for an arrival
+        let n0 = vs::with(|i| i.trace.len());
         vs::grant(t);
-        vs::wait_until(Duration::from_secs(60), |i| !i.waiting.contains_key(&t));
+        vs::wait_until(Duration::from_secs(60), |i| i.trace[n0..].iter().any(|e| e.0 == t));
     }
     fn at_point(&self, t: vs::Tid) -> Option<&'static str> { vs::with(|i| i.waiting.get(&t).copied()) }
 
@@ -167,6 +167,7 @@ impl Run {
 
     /// Executes one token; returns false when it is not applicable.
     fn exec(&mut self, tok: &str, wait: Duration) -> bool {
+        dbg(|| format!("exec {tok}"));
         if let Some(kind) = Kind::parse(tok) {
             if self.midrun.is_some() { return false; }
             let k = self.spawn(kind);
@@ -185,7 +186,12 @@ impl Run {
             }
             if self.at_point(0).is_none() { return false; }
             self.sched.push("w".into());
+            let name = self.at_point(0).unwrap_or("");
             self.grant_raw(0);
+            if name == "w_recv_wait" {
+                // if a request is already queued the worker shows up at `w_recv` at once
+                vs::wait_until(Duration::from_millis(150), |i| i.waiting.contains_key(&0));
+            }
             self.settle();
             return true;
         }
@@ -231,7 +237,21 @@ impl Run {
         let n = self.kinds.len() as u32; let base = self.base;
         !vs::wait_until(tq, |i| i.waiting.keys().any(|t| *t == 0 || (*t > base && *t <= base + n)))
     }
+    /// Version of the document in the programs cache of the shared engines = input of the last
+    /// compilation that ran to completion (an aborted one is never committed).
     fn last_compiled(&self) -> Option<u32> {
+        use sway_types::Spanned;
+        let temp = self.state.uri_from_workspace(&self.uri).ok()?;
+        let path = PathBuf::from(temp.path()).canonicalize().ok()?;
+        let engines = self.state.engines.read();
+        let entry = engines.qe().get_programs_cache_entry(&Arc::new(path))?;
+        let span = entry.programs.lexed.root.tree.value.span();
+        let text = span.input();
+        let i = text.find("fn ver_")?;
+        text[i + 7..].split(|c: char| !c.is_ascii_digit()).next()?.parse::<u32>().ok()
+    }
+    /// Version visible in the token map (what LSP features answer from).
+    fn token_version(&self) -> Option<u32> {
         let temp = self.state.uri_from_workspace(&self.uri).ok()?;
         let mut found = None;
         for e in self.state.token_map.iter() {
@@ -289,13 +309,36 @@ fn run_one(script: &[String], mut plan: Vec<Kind>, mut rng: Option<&mut Rng>, ba
         stuck = r.stuck();
     }
     let lc = r.last_compiled();
+    let tokv = r.token_version();
     let n = r.kinds.len() as u32;
     let trace: Vec<String> = vs::with(|i| i.trace.iter().filter(|(t, _)| *t == 0 || (*t > base && *t <= base + n))
         .map(|(t, name)| format!("{}:{}", if *t == 0 { 0 } else { *t - base }, name)).collect());
-    let line = format!("sched {} ;; trace={} end=q:{},stuck:{},lc:{},latest:{} skipped={}",
+    // Which request did the last compilation that ran to completion serve, and did it start after
+    // the last did_change write? `vl` = version-less request (did_open/did_save): sway-core's parse
+    // cache trusts its entry when the request carries no version (C26), `ch` = did_change request.
+    let cls = {
+        let tr: Vec<(u32, &'static str)> = vs::with(|i| i.trace.iter().filter(|(t, _)| *t == 0 || (*t > base && *t <= base + n))
+            .map(|(t, name)| (if *t == 0 { 0 } else { *t - base }, *name)).collect());
+        let mut chan: Option<Kind> = None;
+        let mut cur: Option<(Kind, bool)> = None;
+        let mut last: Option<(Kind, bool)> = None;
+        let last_write = tr.iter().rposition(|e| e.1 == "c_write");
+        for (idx, (t, name)) in tr.iter().enumerate() {
+            match *name {
+                "s_send" => chan = r.kinds.get(*t as usize - 1).copied(),
+                "s_try_recv" => chan = None,
+                "w_recv" => cur = chan.take().map(|k| (k, last_write.map_or(true, |w| idx > w))),
+                "w_ls_success" | "w_ls_failed" => last = cur,
+                _ => {}
+            }
+        }
+        match last { None => "none".to_string(), Some((k, after)) => format!("{}{}", if k == Kind::Change { "ch" } else { "vl" }, if after { "+" } else { "-" }) }
+    };
+    let line = format!("sched {} ;; trace={} end=q:{},stuck:{},lc:{},latest:{} skipped={} tok={} cls={}",
         if r.sched.is_empty() { "-".to_string() } else { r.sched.join(" ") },
         if trace.is_empty() { "-".to_string() } else { trace.join(",") },
-        quiescent as u8, stuck, lc.map_or("none".to_string(), |v| v.to_string()), r.latest, r.skipped);
+        quiescent as u8, stuck, lc.map_or("none".to_string(), |v| v.to_string()), r.latest, r.skipped,
+        tokv.map_or("none".to_string(), |v| v.to_string()), cls);
     vs::reset();
     let _ = r.state.shutdown_server();
     line
